@@ -42,7 +42,9 @@ def glyph_name(codepoints):
     except TypeError:
         codepoints = [codepoints]
     name = "_".join((_name(c) for c in codepoints))
-    if len(name) > _MAX_NAME_LEN:
+    # leave room for the "g_" prefix that may be added below
+    prefix_len = 0 if name[0].isalpha() and not name.startswith("g_") else 2
+    if len(name) + prefix_len > _MAX_NAME_LEN:
         import hashlib
         import base64
 
